@@ -14,6 +14,7 @@ import (
 	"github.com/resonatehq/resonate/internal/api"
 	"github.com/resonatehq/resonate/internal/app/coroutines"
 	"github.com/resonatehq/resonate/internal/app/subsystems/aio/echo"
+	"github.com/resonatehq/resonate/internal/app/subsystems/aio/store/sqlite"
 	sapi "github.com/resonatehq/resonate/internal/app/subsystems/api"
 	"github.com/resonatehq/resonate/internal/kernel/bus"
 	"github.com/resonatehq/resonate/internal/kernel/system"
@@ -46,7 +47,11 @@ type C12Scenario struct {
 	// Flaky: the echo subsystem is replaced by a harness subsystem whose queue refuses and
 	// whose worker fails by choice of the explorer
 	Flaky bool
-	Bound int
+	// Store: the real SQLite store subsystem (worker goroutine, batch collection, flush) on an
+	// in-memory database and the real ReadPromise coroutine instead of echo
+	Store      bool
+	StoreBatch int
+	Bound      int
 	Delay bool // delay bounding instead of preemption bounding
 }
 
@@ -133,7 +138,14 @@ func (j *C12Job) run(ch vch.Chooser, keepTrace bool, free bool) (*c12Outcome, *v
 	m := j.m
 	a := api.New(sc.APISize, m)
 	io := aio.New(sc.CQSize, m)
-	if sc.Flaky {
+	if sc.Store {
+		st, err := sqlite.New(io, m, &sqlite.Config{Size: sc.SQSize, BatchSize: sc.StoreBatch, Path: ":memory:", TxTimeout: time.Hour})
+		if err != nil {
+			out.viol = append(out.viol, "harness: "+err.Error())
+			return out, nil
+		}
+		io.AddSubsystem(st)
+	} else if sc.Flaky {
 		io.AddSubsystem(&flaky{a: io, sq: make(chan *bus.SQE[t_aio.Submission, t_aio.Completion], sc.SQSize)})
 	} else {
 		e, err := echo.New(io, m, &echo.Config{Size: sc.SQSize, BatchSize: 1, Workers: sc.Workers})
@@ -147,13 +159,11 @@ func (j *C12Job) run(ch vch.Chooser, keepTrace bool, free bool) (*c12Outcome, *v
 	sys := system.New(a, io, cfg, m)
 	// the echo coroutine under a request kind that the protocol-side Process function can
 	// answer (an Echo response has no status code of the API's own)
-	sys.AddOnRequest(t_api.ReadPromise, func(c gocoro.Coroutine[*t_aio.Submission, *t_aio.Completion, any], r *t_api.Request) (*t_api.Response, error) {
-		res, err := coroutines.Echo(c, &t_api.Request{Kind: t_api.Echo, Tags: r.Tags, Echo: &t_api.EchoRequest{Data: r.ReadPromise.Id}})
-		if err != nil {
-			return nil, err
-		}
-		return &t_api.Response{Kind: t_api.ReadPromise, Tags: r.Tags, ReadPromise: &t_api.ReadPromiseResponse{Status: t_api.StatusOK, Promise: &promise.Promise{Id: res.Echo.Data}}}, nil
-	})
+	if sc.Store {
+		sys.AddOnRequest(t_api.ReadPromise, coroutines.ReadPromise)
+	} else {
+		sys.AddOnRequest(t_api.ReadPromise, echoAsRead)
+	}
 	front := sapi.New(a, "verif")
 
 	var reqs []*c12Req
@@ -264,7 +274,10 @@ func (j *C12Job) run(ch vch.Chooser, keepTrace bool, free bool) (*c12Outcome, *v
 		case r.err != nil:
 			code := r.err.Code
 			sum = append(sum, fmt.Sprintf("%s:%d", r.data, code))
-			allowed := map[t_api.StatusCode]bool{t_api.StatusAPISubmissionQueueFull: true, t_api.StatusSystemShuttingDown: true, t_api.StatusSchedulerQueueFull: true, t_api.StatusAIOSubmissionQueueFull: true, t_api.StatusAIOEchoError: true}
+			if sc.Store && code == t_api.StatusPromiseNotFound {
+				break // the operation's result: the promise does not exist in the empty database
+			}
+			allowed := map[t_api.StatusCode]bool{t_api.StatusAIOStoreError: true, t_api.StatusAPISubmissionQueueFull: true, t_api.StatusSystemShuttingDown: true, t_api.StatusSchedulerQueueFull: true, t_api.StatusAIOSubmissionQueueFull: true, t_api.StatusAIOEchoError: true}
 			if !allowed[code] {
 				out.viol = append(out.viol, fmt.Sprintf("unexpected error: request %s was answered with %d (%s)", r.data, code, r.err.Error()))
 			}
@@ -363,6 +376,7 @@ func C12Jobs(tier string) []runner.Job {
 		{Name: "request-after-shutdown", APISize: 1, CQSize: 1, SQSize: 1, Workers: 1, CoroMax: 1, SubBatch: 1, CplBatch: 1, Clients: []int{1}, AfterShutdown: true, Bound: b},
 		{Name: "three-clients/pool-1/backpressure", APISize: 2, CQSize: 1, SQSize: 1, Workers: 1, CoroMax: 1, SubBatch: 2, CplBatch: 1, Clients: []int{1, 1, 1}, LateShutdown: true, Bound: b},
 		{Name: "three-clients/pool-1/batch-3", APISize: 3, CQSize: 1, SQSize: 1, Workers: 1, CoroMax: 1, SubBatch: 5, CplBatch: 1, Clients: []int{1, 1, 1}, LateShutdown: true, Bound: b},
+		{Name: "sqlite-store/batch-2", APISize: 2, CQSize: 1, SQSize: 1, Workers: 1, CoroMax: 2, SubBatch: 2, CplBatch: 1, Clients: []int{1, 1}, Store: true, StoreBatch: 2, Bound: b},
 		{Name: "flaky-subsystem", APISize: 2, CQSize: 1, SQSize: 1, Workers: 1, CoroMax: 2, SubBatch: 2, CplBatch: 1, Clients: []int{1, 1}, Flaky: true, LateShutdown: true, Bound: b},
 	}
 	var jobs []runner.Job
@@ -377,6 +391,9 @@ func C12Jobs(tier string) []runner.Job {
 		d.Bound = 5
 		if tier == "thorough" {
 			d.Bound = 7
+		}
+		if sc.Store {
+			d.Bound -= 2 // every execution opens a database and the worker's batch collection adds blocking points
 		}
 		jobs = append(jobs, &C12Job{Sc: d})
 	}
@@ -394,4 +411,14 @@ func init() {
 			PostCheck: racePass("C12"), Extra: raceExtra,
 		}
 	}
+}
+
+// echoAsRead: the echo coroutine under a request kind that the protocol-side Process
+// function can answer (an Echo response has no status code of the API's own).
+func echoAsRead(c gocoro.Coroutine[*t_aio.Submission, *t_aio.Completion, any], r *t_api.Request) (*t_api.Response, error) {
+	res, err := coroutines.Echo(c, &t_api.Request{Kind: t_api.Echo, Tags: r.Tags, Echo: &t_api.EchoRequest{Data: r.ReadPromise.Id}})
+	if err != nil {
+		return nil, err
+	}
+	return &t_api.Response{Kind: t_api.ReadPromise, Tags: r.Tags, ReadPromise: &t_api.ReadPromiseResponse{Status: t_api.StatusOK, Promise: &promise.Promise{Id: res.Echo.Data}}}, nil
 }
